@@ -171,6 +171,7 @@ def load_known(prop):
 
 
 GROUP_TIMEOUT_S = int(os.environ.get("VERIF_GROUP_TIMEOUT", "420"))
+MAX_REPLAY_FILES = 200
 
 
 class GroupTimeout(BaseException):
@@ -342,6 +343,7 @@ def main_check(prop, tier):
 
     # replay of violations against the real code
     viol_lines = []
+    overflow_started = False
     replay_cache = {}
     for i in violations:
         rp = i.get("replay") or {}
@@ -361,11 +363,20 @@ def main_check(prop, tier):
                     rep = dict(reproduced=False, error="".join(traceback.format_exception_only(type(e), e)))
                 replay_cache[ck] = rep
         hid = hashlib.sha1(i["name_h"].encode()).hexdigest()[:10]
-        path = os.path.join(OUT, "replays", f"{prop}-{hid}.json")
-        with open(path, "w", encoding="utf8") as f:
-            json.dump(dict(property=prop, obligation=i["name"], host=i["host"], verifier_output=i["detail"],
-                           backend=i["backend"], replay_input=rp, replay_result=rep,
-                           how_to_rerun=f"./check --replay {path}"), f, indent=1, default=str)
+        rec = dict(property=prop, obligation=i["name"], host=i["host"], verifier_output=i["detail"],
+                   backend=i["backend"], replay_input=rp, replay_result=rep)
+        if len(viol_lines) < MAX_REPLAY_FILES:
+            path = os.path.join(OUT, "replays", f"{prop}-{hid}.json")
+            rec["how_to_rerun"] = f"./check --replay {path}"
+            with open(path, "w", encoding="utf8") as f:
+                json.dump(rec, f, indent=1, default=str)
+        else:
+            # (a change that breaks thousands of obligations must not fill the disk: the rest
+            #  share one file, one record per line)
+            path = os.path.join(OUT, "replays", f"{prop}-more.jsonl")
+            with open(path, "a" if overflow_started else "w", encoding="utf8") as f:
+                f.write(json.dumps(rec, default=str) + "\n")
+            overflow_started = True
         tail = "" if (rep and rep.get("reproduced")) else " no-failing-input-found"
         viol_lines.append(f"VIOLATION property={prop} replay={path}{tail}")
 
@@ -429,7 +440,10 @@ def main_check(prop, tier):
 
 
 def main_replay(path):
-    d = json.load(open(path, encoding="utf8"))
+    if path.endswith(".jsonl"):  # the shared overflow file: replay its first record
+        d = json.loads(open(path, encoding="utf8").readline())
+    else:
+        d = json.load(open(path, encoding="utf8"))
     prop = d["property"]
     sys.path.insert(0, VERIF) if VERIF not in sys.path else None
     mod = importlib.import_module(f"suites.{prop.lower()}")
